@@ -47,6 +47,7 @@ EXPECTED_PROBES = [
     "conc_two_threads_same_key_put",
     "conc_get_overlaps_flush_all",
     "conc_switch_inside_critical_section",
+    "conc_clock_moved_while_op_in_flight",
 ]
 
 _R = None  # dns.resolver
@@ -268,6 +269,9 @@ def gen_case(seed, tier):
         threads = []
         for _ in range(rng.choice([2, 2, 3, 4])):
             ops = [_gen_op(rng, kind, nkeys) for _ in range(rng.choice([1, 2, 3, 5]))]
+            if rng.random() < 0.35:
+                # the clock moves while operations are in flight (another thread's time passes)
+                ops.insert(rng.randrange(len(ops) + 1), ["adv", rng.choice([0.5, 1, 5, "to_exp"])])
             if total + len(ops) > 18:
                 ops = ops[: max(0, 18 - total)]
             total += len(ops)
@@ -392,17 +396,21 @@ def _run_seq(case, res, log):
 # ---- linearizability ------------------------------------------------------
 
 
-def linearizable(kind, init, history, cap=100000):
-    """history: list of dicts inv, ret, op (tuple), now, result.  Wing-Gong search."""
+def linearizable(kind, init, history, clock_values, cap=100000):
+    """history: list of dicts inv, ret, op (tuple), t_lock, t_ret, result.  Wing-Gong search.
+    The clock may move while operations are in flight: an operation takes effect at some clock
+    value between the moment it obtained the cache lock and its return, and effect times are
+    non-decreasing along the linearization."""
     n = len(history)
     full = (1 << n) - 1
     memo = set()
     nodes = [0]
+    values = sorted(set(clock_values))
 
-    def search(mask, st):
+    def search(mask, st, tau):
         if mask == full:
             return True
-        key = (mask, st)
+        key = (mask, st, tau)
         if key in memo:
             return False
         memo.add(key)
@@ -413,12 +421,16 @@ def linearizable(kind, init, history, cap=100000):
         for i, h in enumerate(history):
             if mask & (1 << i) or h["inv"] > min_ret:
                 continue
-            nst, r = m_apply(kind, st, h["op"], h["now"])
-            if r == h["result"] and search(mask | (1 << i), nst):
-                return True
+            lo = max(tau, h["t_lock"])
+            for t in values:
+                if t < lo or t > h["t_ret"]:
+                    continue
+                nst, r = m_apply(kind, st, h["op"], t)
+                if r == h["result"] and search(mask | (1 << i), nst, t):
+                    return True
         return False
 
-    return search(0, init), nodes[0]
+    return search(0, init, values[0]), nodes[0]
 
 
 def _run_conc(case, res, log):
@@ -440,6 +452,8 @@ def _run_conc(case, res, log):
         st, _ = m_apply(kind, st, tuple(op), VT.now)
     init = st
     any_switch_inside = [False]
+    clock_values = [VT.now]
+    current_rec = {}
     for ri, rnd in enumerate(case["rounds"]):
         dt = _resolve_adv(rnd["adv"], st, cache, cfg) if rnd["adv"] != "to_exp" else None
         if dt is None:
@@ -450,6 +464,8 @@ def _run_conc(case, res, log):
         VT.jump(dt)
         res.sim_seconds += dt
         now = VT.now
+        clock_values.append(now)
+        round_start_index = len(history)
         rng = sub_rng(case["seed"], f"sched{ri}")
         in_method = {}
 
@@ -461,22 +477,47 @@ def _run_conc(case, res, log):
 
         sched = Scheduler(rng, strategy=cfg["strategy"], schedule=(case.get("schedule") or {}).get(str(ri)) if case.get("schedule") else None, step_cap=20000, on_step=on_step, log=log)
 
+        def on_acquired(thread, lock):
+            rec = current_rec.get(thread.idx)
+            if rec is not None and lock is cache.lock and rec["t_lock"] is None:
+                rec["t_lock"] = VT.now
+
+        sched.on_acquired = on_acquired
+
         def body(t, ops):
             for op in ops:
                 op = list(op)
+                if op[0] == "adv":
+                    # time passes while other operations may be in flight
+                    sched.yield_point("op")
+                    dt = op[1]
+                    if dt == "to_exp":
+                        exps = sorted(v.value.expiration if kind == "lru" else v.expiration for v in list(cache.data.values()))
+                        exps = [e for e in exps if e > VT.now]
+                        dt = (exps[0] - VT.now) if exps else 1.0
+                    VT.jump(dt)
+                    clock_values.append(VT.now)
+                    res.faults.inc("clock_advance_during_concurrent_ops")
+                    log.add("adv", t.idx, round(VT.now, 3))
+                    continue
                 if op[0] == "put":
                     uid[0] += 1
                     op[2] = uid[0]
-                    op[3] = now + op[3]
+                    op[3] = VT.now + op[3]
                 seq[0] += 1
-                rec = {"inv": seq[0], "ret": None, "op": tuple(op), "now": now, "result": None, "thread": t.idx}
+                rec = {"inv": seq[0], "ret": None, "op": tuple(op), "now": VT.now, "t_lock": None, "t_ret": None, "result": None, "thread": t.idx}
                 history.append(rec)
                 sched.yield_point("op")
                 t.phase = "in_op"
+                current_rec[t.idx] = rec
                 try:
                     rec["result"] = r_apply(cache, kind, op, keys)
                 finally:
                     t.phase = "idle"
+                    current_rec[t.idx] = None
+                    rec["t_ret"] = VT.now
+                    if rec["t_lock"] is None:
+                        rec["t_lock"] = rec["now"]  # an operation that takes no lock (set_max_size)
                 seq[0] += 1
                 rec["ret"] = seq[0]
                 log.add("ret", t.idx, op[0], rec["result"])
@@ -503,7 +544,7 @@ def _run_conc(case, res, log):
         if sched.switches > 0 and in_method:
             any_switch_inside[0] = True
         # overlap probes
-        recs = [h for h in history if h["now"] == now]
+        recs = history[round_start_index:]
         for a in recs:
             for b in recs:
                 if a is b or a["thread"] == b["thread"]:
@@ -525,16 +566,16 @@ def _run_conc(case, res, log):
             if exp is None:
                 for op in case.get("pre", []):
                     pass
-            if exp is not None and exp <= h["now"]:
-                raise Violation("C17:stale-answer", f"get returned answer {h['result']} with expiration {exp} at now {h['now']}")
+            if exp is not None and exp <= h["t_lock"]:
+                raise Violation("C17:stale-answer", f"get returned answer {h['result']} whose expiration {exp - 1000.0} had passed when the operation obtained the cache lock (clock {h['t_lock'] - 1000.0}, returned at {h['t_ret'] - 1000.0})")
     try:
-        ok, nodes = linearizable(kind, init, history)
+        ok, nodes = linearizable(kind, init, history, clock_values)
     except OverflowError:
         res.anomaly = "linearizability search cap exceeded"
         return
     res.probes.inc("wg_search_nodes", nodes)
     if not ok:
-        desc = [f"T{h['thread']} {h['op']} -> {h['result']} [{h['inv']},{h['ret']}] t={h['now'] - 1000.0}" for h in history]
+        desc = [f"T{h['thread']} {h['op']} -> {h['result']} [{h['inv']},{h['ret']}] clock {h['t_lock'] - 1000.0}..{h['t_ret'] - 1000.0}" for h in history]
         raise Violation("C17:not-linearizable", "no sequential order explains: " + "; ".join(desc))
     # structure at the end: ring and dict must agree with each other
     if kind == "lru":
@@ -549,6 +590,8 @@ def _run_conc(case, res, log):
             raise Violation("C17:ring-dict-mismatch", "ring and dict disagree after concurrent history")
     if cache.lock.held:
         raise Violation("C17:deadlock", "cache lock still held at the end")
+    if any(h["t_ret"] > h["now"] for h in history):
+        res.probes.inc("conc_clock_moved_while_op_in_flight")
     res.nontrivial = any_switch_inside[0]
     res.state("conc", len(history), kind)
 
